@@ -21,7 +21,10 @@ THEOREMS = [
     # the flat `_nodes` map and upward walk of parse.py (Model/ParseFlat.lean) refines the trie
     "PM.upward_seg", "PM.add_refines", "PM.C09Flat.flat_refines_trie", "PM.C09Flat.flat_sequence_refines_trie",
     "PM.C09Flat.flat_root_and_complete", "PM.C09Flat.spec_stream_in_domain", "PM.C09Flat.flat_single_message_task",
-    "PM.C09Flat.flat_follows_spec",
+    "PM.C09Flat.flat_follows_spec", "PM.C09Flat.flat_complete_iff_all_arrived",
+    # ... and Parser.add / parse_stream over flat tasks refine the trie parser (Proofs/ParseFlatParser.lean)
+    "PM.FParser.add_refines", "PM.FParser.feed_refines", "PM.pdom_of_spec", "PM.C09Flat.flat_parse_stream_follows_spec",
+    "PM.C09Flat.PInv.get",
 ]
 RULE = ("histories = permutations / sub-multisets / task interleavings of the messages of generated well-formed forests "
         "(1-4 tasks, depth <= 4 quick / 6 thorough, nested actions standing for remote sub-tasks too), plus a malformed stream "
